@@ -632,11 +632,7 @@ def r76(db, ctx):
         else:
             ctx.fail('R7.6', f, f'StripedScores::{nm}', f'missing callees {sorted(need - cs)}')
     f = db.fn('lightmotif::scores::Scores::threshold')
-    okc = False
-    for c in db.closures_of(f):
-        e = common.return_expr_single_path_allow(c)
-        if e is not None and 'ge' in X.canon(norm(e)):
-            okc = True
+    okc = scores_threshold_form(db, f)
     if not okc:
         # loop form: positions are pushed under x >= threshold
         Rf = X.Rec(f)
@@ -649,6 +645,48 @@ def r76(db, ctx):
                         okc = True
     (ctx.ok if okc else ctx.fail)('R7.6', f, 'Scores::threshold filters with >=', *([[]] if okc else ['filter is not x >= threshold']))
     ctx.floor('R7.6', n, 3, 'StripedScores reductions')
+
+
+def scores_threshold_form(db, f):
+    """Scores::threshold collects, in order, every position i of self.data with data[i] >= threshold:
+    `enumerate().filter(|(_, x)| x >= &t).map(|(i, _)| i).collect()` or `enumerate().filter_map(|(i, x)| if x >= t { Some(i) } else { None }).collect()`."""
+    from lm import reduce as RD
+    R = X.Rec(f)
+    C = RD.RCanon(db, f, R)
+    e = common.return_expr_single_path_allow(f)
+    if e is None:
+        return False
+    e = norm(e)
+    if not (e[0] == 'call' and e[1].endswith('Iterator::collect') and len(e[2]) == 1):
+        return False
+    P = e[2][0]
+    L = RD._fresh()
+    pos = ('pos', L)
+    data = ('fld', ('p', 1), 'data')
+
+    def is_keep(cond):
+        r = G.as_relation(C.canon(cond), True)
+        cell = lambda x: x == ('at', data, pos)
+        thr = lambda x: norm(x) == ('p', 2)
+        return (r[0] == 'ge' and cell(r[1]) and thr(r[2])) or (r[0] == 'le' and thr(r[1]) and cell(r[2]))
+    whole = lambda ext: ext == [('len', data)]
+    if P[0] == 'call' and P[1].endswith('Iterator::filter_map') and len(P[2]) == 2:
+        el = C.elem_of(P[2][0], L)
+        body = RD.apply_fn(db, P[2][1], [el[0]]) if el is not None else None
+        if body is None or body[0] != 'ite' or not whole(el[1]):
+            return False
+        some = C.canon(body[2])
+        none = C.canon(body[3])
+        return is_keep(body[1]) and some[0] == 'agg' and len(some[2]) == 1 and some[2][0] == pos and none[0] == 'agg' and not none[2]
+    if P[0] == 'call' and P[1].endswith('Iterator::map') and len(P[2]) == 2 and P[2][0][0] == 'call' and P[2][0][1].endswith('Iterator::filter'):
+        Fl = P[2][0]
+        el = C.elem_of(Fl[2][0], L)
+        if el is None or not whole(el[1]):
+            return False
+        cond = RD.apply_fn(db, Fl[2][1], [el[0]])
+        out = RD.apply_fn(db, P[2][1], [el[0]])
+        return cond is not None and out is not None and is_keep(cond) and C.canon(out) == pos
+    return False
 
 
 MC_NEW = 'MatrixCoordinates::new'
